@@ -61,3 +61,27 @@ func VerifC16_FlagWord3_T() {
 	verif.Assert(final == (f0|a|c)&^b, "concurrent set/clear lost or invented a health condition")
 	verif.Cover("end")
 }
+
+// VerifC16_HealthMeaning: a host is healthy exactly when no health condition
+// is set in its flag word - for every 64-bit word, and after setting or
+// clearing any condition through the host's own methods; each condition is
+// reported by ContainHealthFlag exactly when its bit is set.
+func VerifC16_HealthMeaning() {
+	word := verif.U64("flag_word")
+	h := &simpleHost{healthFlags: &word}
+	verif.Assert(h.Health() == (word == 0), "Health() is not 'no condition set'")
+	verif.Assert(h.ContainHealthFlag(api.FAILED_ACTIVE_HC) == (word&uint64(api.FAILED_ACTIVE_HC) != 0), "ContainHealthFlag(active) does not reflect its bit")
+	verif.Assert(h.ContainHealthFlag(api.FAILED_OUTLIER_CHECK) == (word&uint64(api.FAILED_OUTLIER_CHECK) != 0), "ContainHealthFlag(outlier) does not reflect its bit")
+	flag := []api.HealthFlag{api.FAILED_ACTIVE_HC, api.FAILED_OUTLIER_CHECK}[verif.Choose("flag", 2)]
+	want := word
+	if verif.Choose("set", 2) == 1 {
+		h.SetHealthFlag(flag)
+		want |= uint64(flag)
+	} else {
+		h.ClearHealthFlag(flag)
+		want &^= uint64(flag)
+	}
+	verif.Assert(h.HealthFlag() == api.HealthFlag(want), "setting/clearing one condition changed another")
+	verif.Assert(h.Health() == (want == 0), "after a set/clear Health() is not 'no condition set'")
+	verif.Cover("end")
+}
